@@ -2,6 +2,7 @@ import UcantoModel.Model.Basic
 import UcantoModel.Model.Enum
 import UcantoModel.Model.Patterns
 import UcantoModel.Model.WorldJson
+import UcantoModel.Model.Http
 /-!
 # Line-protocol driver
 stdin: one case per line, TAB separated: `op  arg1  arg2 …`
@@ -109,9 +110,36 @@ def doServe (mode world impl : String) : String :=
     s!"{model}\t{oracle}"
   | .error e => bad s!"world:{e}"
 
+def doHandle (ct acc body : String) : String :=
+  match Bytes.ofHex ct, Bytes.ofHex acc with
+  | some ct, some acc =>
+    let b : Option Http.Body := match body with
+      | "valid" | "valid0" => some (.message true)
+      | "missinginv" => some (.message false)
+      | "empty" | "garbage" | "nonmsg" | "noroot" => some .undecodable
+      | _ => none
+    match b with
+    | none => bad "body kind"
+    | some b =>
+      let (h, runs) := Http.handle ct acc b
+      let calls := if runs && body == "valid" then 1 else 0
+      match h with
+      | .status c => s!"status:{c}|calls={calls}\t-"
+      | .error => s!"error|calls={calls}\t-"
+  | _, _ => bad "handle args"
+
+def doChannel (st : String) : String :=
+  match st.toNat? with
+  | some n => match Http.channel n with
+    | .response => s!"response:{n}\t-"
+    | .httpError s => s!"httperror:{s}\t-"
+  | none => bad "channel args"
+
 def handle (line : String) : String :=
   match line.splitOn "\t" with
   | ["access", mode, world, spine, checker, _, impl] => doAccess mode world spine checker impl
+  | ["handle", ct, acc, body, _] => doHandle ct acc body
+  | ["channel", st, _, _] => doChannel st
   | ["serve", mode, world, impl] => doServe mode world impl
   | ["access3", mode, world, spine, checker, _, impl] => doAccess mode world spine checker impl
   | ["c16x", n, p, _] =>
